@@ -131,7 +131,10 @@ def lift(e):
 
 def arith(op, a, b):
     if not (isinstance(a, Sym) or isinstance(b, Sym)):
-        raise Unsupported('arith on concrete values should not come here')
+        import operator
+        f = {'+': operator.add, '-': operator.sub, '*': operator.mul, '/': operator.truediv,
+             '**': operator.pow, '//': operator.floordiv, '%': operator.mod}[op]
+        return f(a, b)
     real = _is_realish(a) or _is_realish(b) or op == '/'
     if op == '**':
         return sym_pow(a, b)
